@@ -414,4 +414,21 @@ def counterOfList {κ : Type} [BEq κ] (xs : List κ) : Counter κ :=
   xs.foldl (fun c x => dictSet c x (counterGet c x + 1)) []
 -- --- end T4
 
+/-! --- T14: list item assignment / `remove`, `abs` (harness/translate_t14.py); compared with CPython in `harness/prelude_check.py`
+    (ops `t14_*` of the driver). -/
+
+/-- `xs[i] = v` once `xs[i]` has been read (`indexE`: negative indices count from the end, `IndexError` outside – where the read
+    raises the store is not reached, and `listSet` leaves the list unchanged) -/
+def listSet {α : Type} (xs : List α) (i : Int) (v : α) : List α :=
+  if 0 ≤ i then xs.set i.toNat v else if 0 ≤ i + xs.length then xs.set (i + xs.length).toNat v else xs
+
+/-- `xs.remove(v)`: the FIRST occurrence is removed, `ValueError` when there is none -/
+def listRemoveE {α : Type} [BEq α] (xs : List α) (v : α) : Except Exc4 (List α) :=
+  if xs.contains v then .ok (xs.erase v) else .error .value
+
+/-- `abs(x)` on a numeric value / on an int -/
+def absNum {ν : Type} [PyNum ν] (x : ν) : ν := if PyNum.lt x ((0 : Int) : ν) then ((0 : Int) : ν) - x else x
+def absInt (x : Int) : Int := ((x.natAbs : Nat) : Int)
+-- --- end T14
+
 end OQ.Py
